@@ -2,6 +2,7 @@ package main
 
 import (
 	"go/token"
+	"go/types"
 
 	"golang.org/x/tools/go/ssa"
 )
@@ -197,4 +198,140 @@ func isConstBool(v ssa.Value, want bool) bool {
 		return false
 	}
 	return c.Value.String() == map[bool]string{true: "true", false: "false"}[want]
+}
+
+// derivesFrom reports whether v's backward slice (within its function; through operators, calls'
+// arguments, phis, element/field selection, conversions and loads of locals) contains a value
+// satisfying pred.
+func derivesFrom(v ssa.Value, pred func(ssa.Value) bool) bool {
+	seen := map[ssa.Value]bool{}
+	var walk func(v ssa.Value, d int) bool
+	walk = func(v ssa.Value, d int) bool {
+		if v == nil || seen[v] || d > 40 {
+			return false
+		}
+		seen[v] = true
+		if pred(v) {
+			return true
+		}
+		switch x := v.(type) {
+		case *ssa.Phi:
+			for _, e := range x.Edges {
+				if walk(e, d+1) {
+					return true
+				}
+			}
+		case *ssa.UnOp:
+			if x.Op == token.MUL {
+				if al, ok := x.X.(*ssa.Alloc); ok {
+					for _, r := range refs(al) {
+						if st, ok := r.(*ssa.Store); ok && st.Addr == ssa.Value(al) && walk(st.Val, d+1) {
+							return true
+						}
+					}
+					return false
+				}
+			}
+			return walk(x.X, d+1)
+		case ssa.Instruction:
+			for _, op := range x.Operands(nil) {
+				if *op != nil && walk(*op, d+1) {
+					return true
+				}
+			}
+		}
+		return false
+	}
+	return walk(v, 0)
+}
+
+// nextCalls returns the calls in fn whose callee value is a captured/received handler of the given
+// named type (e.g. server.RouteHandler `next`).
+func isHandlerValueCall(ins ssa.Instruction, pkgPath, typeName string) bool {
+	call, ok := ins.(ssa.CallInstruction)
+	if !ok || call.Common().IsInvoke() {
+		return false
+	}
+	v := call.Common().Value
+	if u, ok := v.(*ssa.UnOp); ok && u.Op == token.MUL {
+		v = u.X
+	}
+	switch v.(type) {
+	case *ssa.FreeVar, *ssa.Parameter, *ssa.Alloc:
+		return typeIs(v.Type(), pkgPath, typeName)
+	}
+	return false
+}
+
+// isCallTo: ins is a call whose resolved callee has one of the qualified names.
+func isCallTo(ins ssa.Instruction, names ...string) bool {
+	call, ok := ins.(ssa.CallInstruction)
+	if !ok {
+		return false
+	}
+	n := callName(call)
+	for _, w := range names {
+		if n == w {
+			return true
+		}
+	}
+	return false
+}
+
+// innerClosures returns all (transitively nested) anonymous functions of fn.
+func innerClosures(fn *ssa.Function) []*ssa.Function {
+	return withAnon(fn)[1:]
+}
+
+func blockHas(b *ssa.BasicBlock, pred func(ssa.Instruction) bool) bool {
+	for _, ins := range b.Instrs {
+		if pred(ins) {
+			return true
+		}
+	}
+	return false
+}
+
+// ifOf returns the If terminating block b, or nil.
+func ifOf(b *ssa.BasicBlock) *ssa.If {
+	if len(b.Instrs) == 0 {
+		return nil
+	}
+	iff, _ := b.Instrs[len(b.Instrs)-1].(*ssa.If)
+	return iff
+}
+
+// localVarNamed finds the name of the (unique) local variable of fn (heap or stack Alloc) whose
+// element type satisfies pred; "" if none or ambiguous. Used to resolve slots by role, not by name.
+func localVarNamed(fn *ssa.Function, pred func(t types.Type) bool) string {
+	name := ""
+	n := 0
+	for _, b := range fn.Blocks {
+		for _, ins := range b.Instrs {
+			if al, ok := ins.(*ssa.Alloc); ok && al.Comment != "" && al.Comment != "complit" && al.Comment != "varargs" {
+				if pt, ok := al.Type().(*types.Pointer); ok && pred(pt.Elem()) {
+					if al.Comment != name {
+						n++
+					}
+					name = al.Comment
+				}
+			}
+		}
+	}
+	if n == 1 {
+		return name
+	}
+	return ""
+}
+
+func isSyncMutex(t types.Type) bool {
+	return typeIs(t, "sync", "Mutex") || typeIs(t, "sync", "RWMutex")
+}
+
+// mapWithElem: t is a map whose element type is (pointer to) the named type.
+func mapWithElem(pkgPath, name string) func(types.Type) bool {
+	return func(t types.Type) bool {
+		m, ok := t.Underlying().(*types.Map)
+		return ok && typeIs(m.Elem(), pkgPath, name)
+	}
 }
